@@ -152,8 +152,11 @@ func TestRegress(t *testing.T) {
 	// thread profile): on the cylinder radius == r/2 (the horizontal split line of the
 	// profile polygon's root quadtree cell, which is 1 ulp above r/2 here) the winding
 	// count loses the polygon edges x = +-pitch and the whole screw core reads OUTSIDE.
-	// Found by TestHelix (helical invariance, seed 1). Kept last: it fails until fixed.
-	{
+	// Found by TestHelix (helical invariance, seed 1). Subtests: each fails until fixed.
+	t.Run("finding-quadtree-split-line", func(t *testing.T) {
+		bad := func(key, what, format string, args ...any) {
+			rec.FailCase(t, "TestRegress", key, regressCase{what}, format, args...)
+		}
 		r, p := 10.934140401840008, 1.0009770394924165
 		prof, err := sdf.ANSIButtressThread(r, p)
 		if err != nil {
@@ -172,5 +175,35 @@ func TestRegress(t *testing.T) {
 				"ANSIButtressThread(%v,%v), Screw3D(len=pitch, starts=1): f%v=%v but its helical image %v has f=%v (and so have the points 1 ulp of radius away: %v, %v)",
 				r, p, pt, f0, img, f1, s.Evaluate(scaleXY(pt, 1+0x1p-52)), s.Evaluate(scaleXY(pt, 1-0x1p-52)))
 		}
-	}
+	})
+
+	// FINDING (same root cause family, C04 "dropped pieces"): the internal profile that
+	// obj.Nut / a user builds for M1.6x0.2 with tolerance 0.05168439571940547
+	// (ISOThread(0.8516843957194055, 0.2, false)) loses the upper part of its right flank
+	// in the quadtree (a polygon vertex lies within the library's 1e-9 snap distance of a
+	// cell border), so between rMinor and the groove peak the groove reads OUTSIDE and the
+	// nut material left of the groove reads INSIDE: the generated nut thread is garbage
+	// in that band and the M1.6 external thread "intersects" it by 0.13 pitch.
+	// Found by TestMating (thorough tier).
+	t.Run("finding-dropped-flank-piece", func(t *testing.T) {
+		name, tolI := "M1.6x0.2", 0.05168439571940547
+		r, p, taper, _, err := lookup(name, false)
+		if err != nil {
+			t.Fatalf("%v", err)
+		}
+		m, err := newPair(name, r, p, taper, 0, tolI, 2*p, 2*p)
+		if err != nil {
+			t.Fatalf("%v", err)
+		}
+		pt := v3.Vec{X: -0.7758827305715199, Y: 0, Z: -0.12642411176571156}
+		rec.Case(true, "regress|dropped-flank-piece", "regress")
+		if badp, e, nm := m.interpenetrates(pt); badp {
+			key := "thread-mating:external-intersects-nut-material:straight"
+			why := ""
+			if u, w := m.unstable(pt); u {
+				key, why = keyProfileFlip, w
+			}
+			rec.FailCase(t, "TestRegress", key, regressCase{name + " tol_int " + ev.F(tolI)}, "%s: p=%v ext=%v nutMaterial=%v: %s", m, pt, e, nm, why)
+		}
+	})
 }
